@@ -1,33 +1,187 @@
-(* C05 proofs: composition, estimate = execution, limits - parametric in the pool interface. *)
+(* C05 proofs: composition, estimate = execution, split = sum, limits - parametric in the pool interface.
+   Section hypothesis [L : PoolLaws P] = the two laws "calc = fst of swap" and "calc leaves the pool unchanged". *)
 From Coq Require Import ZArith List Bool Lia.
 Import ListNotations.
 From Osmo Require Import Base.DecModel C05.Model.
 Open Scope Z_scope.
 
+(* ------------------------------------------------------------------ taker-fee arithmetic *)
+Lemma P18_pos : 0 < P18.
+Proof. reflexivity. Qed.
+
+Lemma calc_fee_in_sum : forall amt f, fst (calc_fee_in amt f) + snd (calc_fee_in amt f) = amt.
+Proof. intros; unfold calc_fee_in; cbn [fst snd]; lia. Qed.
+
+Lemma calc_fee_in_zero : forall amt, calc_fee_in amt 0 = (amt, 0).
+Proof.
+  intros. unfold calc_fee_in, d_truncate_int, d_mul_int. rewrite Z.sub_0_r.
+  rewrite (Z.mul_comm P18 amt), Z.quot_mul by (pose proof P18_pos; lia).
+  f_equal. lia.
+Qed.
+
+Lemma chop_round_exact : forall x, chop_round P18 (x * P18) = x.
+Proof.
+  intros. pose proof P18_pos as HP.
+  assert (N : forall y, 0 <= y -> chop_round_nonneg P18 (y * P18) = y).
+  { intros. unfold chop_round_nonneg. rewrite Z.quot_mul, Z.rem_mul by lia. reflexivity. }
+  unfold chop_round. destruct (x * P18 <? 0) eqn:E.
+  - apply Z.ltb_lt in E. replace (- (x * P18)) with ((- x) * P18) by lia. rewrite N by nia. lia.
+  - apply Z.ltb_ge in E. apply N. nia.
+Qed.
+
+Lemma calc_fee_out_zero : forall amt, calc_fee_out amt 0 = Ok (amt, 0).
+Proof.
+  intros. pose proof P18_pos as HP. unfold calc_fee_out. rewrite Z.sub_0_r.
+  replace (P18 =? 0) with false by (symmetry; apply Z.eqb_neq; lia).
+  unfold d_quo, d_from_int.
+  replace (amt * P18 * (P18 * P18)) with (amt * P18 * P18 * P18) by lia.
+  rewrite Z.quot_mul by lia. rewrite chop_round_exact.
+  unfold d_ceil, d_truncate_int. rewrite Z.rem_mul, Z.quot_mul by lia. change (0 <? 0) with false. cbv iota.
+  rewrite Z.quot_mul by lia. f_equal. f_equal. lia.
+Qed.
+
+(* keep the 18-decimal arithmetic folded: [simpl] on 10^18 mantissas explodes *)
+Arguments calc_fee_in : simpl never.
+Arguments calc_fee_out : simpl never.
+
 Section WithPool.
 Variable P : PoolIface.
 
-Lemma module_swap_exact_in_min : forall s sender pid p dIn amt dOut minOut spread s' out,
-  module_swap_exact_in P s sender pid p dIn amt dOut minOut spread = Ok (s', out) -> minOut <= out /\ 0 < out.
+(* ------------------------------------------------------------------ pool table *)
+Lemma put_pool_same : forall l id p, get_pool P l id = Some p -> put_pool P l id p = l.
+Proof.
+  induction l as [|[k q] r IH]; intros; simpl in *; [reflexivity|].
+  destruct (k =? id) eqn:E.
+  - inversion H; subst; reflexivity.
+  - f_equal. apply IH; assumption.
+Qed.
+
+Lemma get_put_other : forall l id p id', id' <> id -> get_pool P (put_pool P l id p) id' = get_pool P l id'.
+Proof.
+  induction l as [|[k q] r IH]; intros; simpl; [reflexivity|].
+  destruct (k =? id) eqn:E; simpl.
+  - apply Z.eqb_eq in E; subst. destruct (id =? id') eqn:E2; [apply Z.eqb_eq in E2; congruence|reflexivity].
+  - destruct (k =? id'); [reflexivity|apply IH; assumption].
+Qed.
+
+Lemma set_pool_same : forall s id p, get_pool P (pools s) id = Some p -> set_pool P s id p = s.
+Proof. intros; destruct s; unfold set_pool; simpl in *. rewrite put_pool_same by assumption. reflexivity. Qed.
+
+(* ------------------------------------------------------------------ inversion lemmas *)
+Lemma charge_inv : forall s sender dIn amt dOut ex s1 after fee,
+  charge_taker_fee P s sender dIn amt dOut ex = Ok (s1, (after, fee)) ->
+  pools s1 = pools s /\ taker_fee s1 = taker_fee s /\ whitelisted s1 = whitelisted s /\
+  (whitelisted s sender = true -> s1 = s /\ after = amt /\ fee = 0) /\
+  (whitelisted s sender = false ->
+     (if ex then Ok (calc_fee_in amt (taker_fee s dIn dOut)) else calc_fee_out amt (taker_fee s dIn dOut)) = Ok (after, fee)
+     /\ send_new (bal s) sender Collector dIn fee = Ok (bal s1)).
+Proof.
+  unfold charge_taker_fee; intros.
+  destruct (whitelisted s sender) eqn:W.
+  - inversion H; subst. repeat split; auto; intros; discriminate.
+  - destruct (if ex then Ok (calc_fee_in amt (taker_fee s dIn dOut)) else calc_fee_out amt (taker_fee s dIn dOut)) as [[a f]|] eqn:E; [|discriminate].
+    destruct (send_new (bal s) sender Collector dIn f) eqn:E2; [|discriminate].
+    inversion H; subst. simpl. repeat split; auto; intros; discriminate.
+Qed.
+
+(* the sender pays exactly the fees of the taker-fee table: not on the reduced-fee whitelist, or the table is all zero *)
+Definition fee_neutral (s : state P) (sender : acct) : Prop :=
+  whitelisted s sender = false \/ forall a b, taker_fee s a b = 0.
+
+Lemma charge_after_in : forall s sender dIn amt dOut s1 after fee, fee_neutral s sender ->
+  charge_taker_fee P s sender dIn amt dOut true = Ok (s1, (after, fee)) ->
+  after = fst (calc_fee_in amt (taker_fee s dIn dOut)).
+Proof.
+  intros. apply charge_inv in H0. destruct H0 as (_ & _ & _ & A & B).
+  destruct (whitelisted s sender) eqn:W.
+  - destruct (A eq_refl) as (_ & ? & _). subst. destruct H as [H|H]; [congruence|]. rewrite H, calc_fee_in_zero. reflexivity.
+  - destruct (B eq_refl) as (C & _). remember (calc_fee_in amt (taker_fee s dIn dOut)) as cf. inversion C. reflexivity.
+Qed.
+
+Lemma charge_after_out : forall s sender dIn amt dOut s1 after fee, fee_neutral s sender ->
+  charge_taker_fee P s sender dIn amt dOut false = Ok (s1, (after, fee)) ->
+  exists fee', calc_fee_out amt (taker_fee s dIn dOut) = Ok (after, fee').
+Proof.
+  intros. apply charge_inv in H0. destruct H0 as (_ & _ & _ & A & B).
+  destruct (whitelisted s sender) eqn:W.
+  - destruct (A eq_refl) as (_ & ? & _). subst. destruct H as [H|H]; [congruence|]. rewrite H, calc_fee_out_zero. eauto.
+  - destruct (B eq_refl) as (C & _). eauto.
+Qed.
+
+Lemma settle_inv : forall s sender pid p' dIn tin dOut tout s',
+  settle P s sender pid p' dIn tin dOut tout = Ok s' ->
+  pools s' = put_pool P (pools s) pid p' /\ taker_fee s' = taker_fee s /\ whitelisted s' = whitelisted s /\
+  exists b1, send_raw (bal s) sender (PoolAcc pid) dIn tin = Ok b1 /\ send_raw b1 (PoolAcc pid) sender dOut tout = Ok (bal s').
+Proof.
+  unfold settle; intros.
+  destruct (send_raw (bal s) sender (PoolAcc pid) dIn tin) as [b1|] eqn:E1; [|discriminate].
+  destruct (send_raw b1 (PoolAcc pid) sender dOut tout) as [b2|] eqn:E2; [|discriminate].
+  inversion H; subst; simpl. repeat split; auto. exists b1; auto.
+Qed.
+
+Lemma module_in_inv : forall s sender pid p dIn amt dOut minOut spread s' out,
+  module_swap_exact_in P s sender pid p dIn amt dOut minOut spread = Ok (s', out) ->
+  exists p' tin, swap_in P p dIn amt dOut spread = Ok (p', (tin, out)) /\ 0 < out /\ minOut <= out /\ dIn <> dOut /\
+                 settle P s sender pid p' dIn tin dOut out = Ok s'.
 Proof.
   unfold module_swap_exact_in; intros.
-  destruct (dIn =? dOut); [discriminate|].
+  destruct (dIn =? dOut) eqn:E0; [discriminate|].
   destruct (swap_in P p dIn amt dOut spread) as [[p' [tin tout]]|]; [|discriminate].
   destruct (tout <=? 0) eqn:E1; [discriminate|].
   destruct (tout <? minOut) eqn:E2; [discriminate|].
-  destruct (settle P s sender pid p' dIn tin dOut tout); [|discriminate].
-  inversion H; subst. apply Z.leb_gt in E1. apply Z.ltb_ge in E2. lia.
+  destruct (settle P s sender pid p' dIn tin dOut tout) eqn:E3; [|discriminate].
+  inversion H; subst. exists p', tin. apply Z.leb_gt in E1. apply Z.ltb_ge in E2. apply Z.eqb_neq in E0. auto.
 Qed.
 
+Lemma module_out_inv : forall s sender pid p dIn maxIn dOut amtOut spread s' tin,
+  module_swap_exact_out P s sender pid p dIn maxIn dOut amtOut spread = Ok (s', tin) ->
+  exists p' tout, swap_out P p dOut amtOut dIn spread = Ok (p', (tin, tout)) /\ 0 < tin /\ tin <= maxIn /\ dIn <> dOut /\
+                  settle P s sender pid p' dIn tin dOut tout = Ok s'.
+Proof.
+  unfold module_swap_exact_out; intros.
+  destruct (dIn =? dOut) eqn:E0; [discriminate|].
+  destruct (swap_out P p dOut amtOut dIn spread) as [[p' [ti tout]]|]; [|discriminate].
+  destruct (ti <=? 0) eqn:E1; [discriminate|].
+  destruct (maxIn <? ti) eqn:E2; [discriminate|].
+  destruct (settle P s sender pid p' dIn ti dOut tout) eqn:E3; [|discriminate].
+  inversion H; subst. exists p', tout. apply Z.leb_gt in E1. apply Z.ltb_ge in E2. apply Z.eqb_neq in E0. auto.
+Qed.
+
+Lemma pm_in_inv : forall s sender pid dIn amt dOut minOut s' out fee,
+  pm_swap_exact_in P s sender pid dIn amt dOut minOut = Ok (s', (out, fee)) ->
+  exists p s1 after,
+    get_pool P (pools s) pid = Some p /\ is_active P p = true /\
+    charge_taker_fee P s sender dIn amt dOut true = Ok (s1, (after, fee)) /\
+    module_swap_exact_in P s1 sender pid p dIn after dOut minOut (spread_of P p) = Ok (s', out).
+Proof.
+  unfold pm_swap_exact_in; intros.
+  destruct (get_pool P (pools s) pid) as [p|]; [|discriminate].
+  destruct (is_active P p) eqn:A; simpl in H; [|discriminate].
+  destruct (charge_taker_fee P s sender dIn amt dOut true) as [[s1 [after f]]|] eqn:E; [|discriminate].
+  destruct (module_swap_exact_in P s1 sender pid p dIn after dOut minOut (spread_of P p)) as [[s2 o]|] eqn:E2; [|discriminate].
+  inversion H; subst. exists p, s1, after. auto.
+Qed.
+
+(* what one exact-in hop does to the non-bank part of the state *)
+Lemma pm_in_frame : forall s sender pid dIn amt dOut minOut s' out fee,
+  pm_swap_exact_in P s sender pid dIn amt dOut minOut = Ok (s', (out, fee)) ->
+  taker_fee s' = taker_fee s /\ whitelisted s' = whitelisted s /\
+  (forall q, q <> pid -> get_pool P (pools s') q = get_pool P (pools s) q).
+Proof.
+  intros. apply pm_in_inv in H. destruct H as (p & s1 & after & G & A & C & M).
+  apply charge_inv in C. destruct C as (C1 & C2 & C3 & _).
+  apply module_in_inv in M. destruct M as (p' & tin & _ & _ & _ & _ & St).
+  apply settle_inv in St. destruct St as (S1 & S2 & S3 & _).
+  repeat split; try congruence.
+  intros. rewrite S1, C1. apply get_put_other; assumption.
+Qed.
+
+(* ------------------------------------------------------------------ limits: exact-in *)
 Lemma pm_swap_exact_in_min : forall s sender pid dIn amt dOut minOut s' out fee,
   pm_swap_exact_in P s sender pid dIn amt dOut minOut = Ok (s', (out, fee)) -> minOut <= out /\ 0 < out.
 Proof.
-  unfold pm_swap_exact_in; intros.
-  destruct (get_pool P (pools s) pid); [|discriminate].
-  destruct (negb (is_active P p)); [discriminate|].
-  destruct (charge_taker_fee P s sender dIn amt dOut true) as [[s1 [after f]]|]; [|discriminate].
-  destruct (module_swap_exact_in P s1 sender pid p dIn after dOut minOut (spread_of P p)) as [[s2 o]|] eqn:E; [|discriminate].
-  inversion H; subst. eapply module_swap_exact_in_min; eauto.
+  intros. apply pm_in_inv in H. destruct H as (p & s1 & after & _ & _ & _ & M).
+  apply module_in_inv in M. destruct M as (p' & tin & _ & ? & ? & _). auto.
 Qed.
 
 Lemma route_in_min_out : forall route s sender dIn amt minOut s' out,
@@ -40,6 +194,602 @@ Proof.
     inversion H; subst. eapply pm_swap_exact_in_min; eauto.
   - destruct (pm_swap_exact_in P s sender pid dIn amt dOut 1) as [[s1 [o f]]|] eqn:E; [|discriminate].
     eapply IH; eauto.
+Qed.
+
+(* ------------------------------------------------------------------ composition: exact-in *)
+(* a multi-hop route = its first hop (minimum 1) followed by the rest of the route fed with the first hop's output *)
+Lemma route_in_cons : forall s sender h rest dIn amt minOut, rest <> [] ->
+  route_exact_in P s sender (h :: rest) dIn amt minOut =
+  match route_exact_in P s sender [h] dIn amt 1 with
+  | Err e => Err e
+  | Ok (s1, out) => route_exact_in P s1 sender rest (snd h) out minOut
+  end.
+Proof.
+  intros. unfold route_exact_in. destruct h as [pid dOut]. destruct rest as [|h2 rest']; [congruence|].
+  simpl. destruct (pm_swap_exact_in P s sender pid dIn amt dOut 1) as [[s1 [o f]]|]; reflexivity.
+Qed.
+
+(* the left fold of "taker fee, then the pool" over the hops *)
+Definition in_step (sender : acct) (acc : result (state P * (Z * Z))) (hm : (Z * Z) * Z) : result (state P * (Z * Z)) :=
+  match acc with
+  | Err e => Err e
+  | Ok (s, (dIn, amt)) =>
+    match pm_swap_exact_in P s sender (fst (fst hm)) dIn amt (snd (fst hm)) (snd hm) with
+    | Err e => Err e
+    | Ok (s', (out, _)) => Ok (s', (snd (fst hm), out))
+    end
+  end.
+(* the per-hop minimum: 1, ..., 1, the caller's minimum *)
+Fixpoint hop_mins (route : list (Z * Z)) (minOut : Z) : list Z :=
+  match route with
+  | [] => []
+  | [_] => [minOut]
+  | _ :: r => 1 :: hop_mins r minOut
+  end.
+
+Lemma fold_in_step_err : forall sender l e, fold_left (in_step sender) l (Err e) = Err e.
+Proof. induction l; intros; simpl; auto. Qed.
+
+Lemma route_in_eq_fold : forall route s sender dIn amt minOut, route <> [] ->
+  route_exact_in P s sender route dIn amt minOut =
+  match fold_left (in_step sender) (combine route (hop_mins route minOut)) (Ok (s, (dIn, amt))) with
+  | Err e => Err e
+  | Ok (s', (_, out)) => Ok (s', out)
+  end.
+Proof.
+  unfold route_exact_in.
+  induction route as [|[pid dOut] rest IH]; intros; [congruence|].
+  destruct rest as [|h2 rest'].
+  - simpl. destruct (pm_swap_exact_in P s sender pid dIn amt dOut minOut) as [[s1 [o f]]|]; reflexivity.
+  - remember (h2 :: rest') as r2 eqn:R.
+    assert (R2 : r2 <> []) by (subst; discriminate).
+    assert (HM : hop_mins ((pid, dOut) :: r2) minOut = 1 :: hop_mins r2 minOut) by (subst; reflexivity).
+    assert (HL : route_in_loop P s sender ((pid, dOut) :: r2) dIn amt minOut =
+                 match pm_swap_exact_in P s sender pid dIn amt dOut 1 with
+                 | Err e => Err e
+                 | Ok (s', (out, _)) => route_in_loop P s' sender r2 dOut out minOut
+                 end).
+    { subst. simpl. destruct (pm_swap_exact_in P s sender pid dIn amt dOut 1) as [[s1 [o f]]|]; reflexivity. }
+    rewrite HL, HM. cbn [combine fold_left in_step fst snd].
+    destruct (pm_swap_exact_in P s sender pid dIn amt dOut 1) as [[s1 [o f]]|].
+    + rewrite IH by assumption. reflexivity.
+    + rewrite fold_in_step_err. reflexivity.
+Qed.
+
+(* ------------------------------------------------------------------ composition: exact-out as a fold *)
+(* one forward hop of RouteExactAmountOut: swap for the out-coin with the per-hop maximum, then the taker fee on top;
+   on the first hop the sum is compared with the caller's maximum *)
+Definition out_hop (first : bool) (s : state P) (sender : acct) (pid dIn maxIn dOut amtOut : Z) : result (state P * Z) :=
+  match get_pool P (pools s) pid with
+  | None => Err ENoPool
+  | Some p =>
+    if negb (is_active P p) then Err EInactive else
+    match module_swap_exact_out P s sender pid p dIn maxIn dOut amtOut (spread_of P p) with
+    | Err e => Err e
+    | Ok (s1, cur) =>
+      match charge_taker_fee P s1 sender dIn cur dOut false with
+      | Err e => Err e
+      | Ok (s2, (after, _)) => if first && (maxIn <? after) then Err ELimit else Ok (s2, after)
+      end
+    end
+  end.
+
+(* the hops with their concrete arguments: (first?, (pool, denom in, maximum), out-coin) *)
+Fixpoint out_hops (first : bool) (route : list (Z * Z)) (ins : list Z) (dOutF amtF : Z)
+  : list (bool * (Z * Z * Z) * (Z * Z)) :=
+  match route, ins with
+  | (pid, dIn) :: rest, m :: ins_rest =>
+    (first, (pid, dIn, m), next_out rest ins_rest dOutF amtF) :: out_hops false rest ins_rest dOutF amtF
+  | _, _ => []
+  end.
+
+Definition out_step (sender : acct) (acc : result (state P * list Z)) (x : bool * (Z * Z * Z) * (Z * Z))
+  : result (state P * list Z) :=
+  match acc with
+  | Err e => Err e
+  | Ok (s, ts) =>
+    let '(first, (pid, dIn, m), (dOut, amtOut)) := x in
+    match out_hop first s sender pid dIn m dOut amtOut with
+    | Err e => Err e
+    | Ok (s', t) => Ok (s', ts ++ [t])
+    end
+  end.
+
+Lemma fold_out_step_err : forall sender l e, fold_left (out_step sender) l (Err e) = Err e.
+Proof. induction l; intros; simpl; auto. Qed.
+
+Lemma route_out_loop_step : forall first s sender pid dIn rest m ins_rest dOutF amtF,
+  route_out_loop P first s sender ((pid, dIn) :: rest) (m :: ins_rest) dOutF amtF =
+  match out_hop first s sender pid dIn m (fst (next_out rest ins_rest dOutF amtF)) (snd (next_out rest ins_rest dOutF amtF)) with
+  | Err e => Err e
+  | Ok (s2, after) =>
+    match rest with
+    | [] => Ok (s2, after)
+    | _ => match route_out_loop P false s2 sender rest ins_rest dOutF amtF with
+           | Err e => Err e
+           | Ok (s3, _) => Ok (s3, after)
+           end
+    end
+  end.
+Proof.
+  intros. cbn [route_out_loop]. unfold out_hop.
+  destruct (next_out rest ins_rest dOutF amtF) as [dOut amtOut]. simpl fst; simpl snd.
+  destruct (get_pool P (pools s) pid) as [p|]; [|reflexivity].
+  destruct (negb (is_active P p)); [reflexivity|].
+  destruct (module_swap_exact_out P s sender pid p dIn m dOut amtOut (spread_of P p)) as [[s1 cur]|]; [|reflexivity].
+  destruct (charge_taker_fee P s1 sender dIn cur dOut false) as [[s2 [after fee]]|]; [|reflexivity].
+  destruct (first && (m <? after)); reflexivity.
+Qed.
+
+Lemma route_out_loop_fold : forall route first s sender ins dOutF amtF acc,
+  route <> [] -> length ins = length route ->
+  match route_out_loop P first s sender route ins dOutF amtF with
+  | Err e => fold_left (out_step sender) (out_hops first route ins dOutF amtF) (Ok (s, acc)) = Err e
+  | Ok (s', t) => exists ts, fold_left (out_step sender) (out_hops first route ins dOutF amtF) (Ok (s, acc)) = Ok (s', acc ++ t :: ts)
+  end.
+Proof.
+  induction route as [|[pid dIn] rest IH]; intros first s sender ins dOutF amtF acc NE Len; [congruence|].
+  destruct ins as [|m ins_rest]; [simpl in Len; discriminate|].
+  rewrite route_out_loop_step. cbn [out_hops fold_left out_step].
+  destruct (next_out rest ins_rest dOutF amtF) as [dOut amtOut]. simpl fst; simpl snd.
+  destruct (out_hop first s sender pid dIn m dOut amtOut) as [[s2 after]|e].
+  - destruct rest as [|h2 rest'].
+    + destruct ins_rest; [|simpl in Len; discriminate]. simpl. exists []. reflexivity.
+    + specialize (IH false s2 sender ins_rest dOutF amtF (acc ++ [after])).
+      assert (NE2 : h2 :: rest' <> []) by discriminate.
+      assert (Len2 : length ins_rest = length (h2 :: rest')) by (simpl in *; lia).
+      specialize (IH NE2 Len2).
+      destruct (route_out_loop P false s2 sender (h2 :: rest') ins_rest dOutF amtF) as [[s3 t']|e].
+      * destruct IH as [ts IH]. exists (t' :: ts). rewrite IH. rewrite <- app_assoc. reflexivity.
+      * exact IH.
+  - apply fold_out_step_err.
+Qed.
+
+(* ------------------------------------------------------------------ split routes = the sum of their legs *)
+Definition zsum (l : list Z) : Z := fold_right Z.add 0 l.
+Lemma zsum_app : forall a b, zsum (a ++ b) = zsum a + zsum b.
+Proof. induction a; intros; simpl; [reflexivity|]. rewrite IHa. lia. Qed.
+
+Definition leg_in_step (sender : acct) (dIn : Z) (acc : result (state P * list Z)) (leg : list (Z * Z) * Z)
+  : result (state P * list Z) :=
+  match acc with
+  | Err e => Err e
+  | Ok (s, outs) =>
+    if snd leg <? 0 then Err EPanic else
+    match route_exact_in P s sender (fst leg) dIn (snd leg) 0 with
+    | Err e => Err e
+    | Ok (s', out) => Ok (s', outs ++ [out])
+    end
+  end.
+Definition leg_out_step (sender : acct) (dOut : Z) (acc : result (state P * list Z)) (leg : list (Z * Z) * Z)
+  : result (state P * list Z) :=
+  match acc with
+  | Err e => Err e
+  | Ok (s, ins) =>
+    if snd leg <? 0 then Err EPanic else
+    match route_exact_out P s sender (fst leg) int_max_value dOut (snd leg) with
+    | Err e => Err e
+    | Ok (s', tin) => Ok (s', ins ++ [tin])
+    end
+  end.
+
+Lemma fold_leg_in_err : forall sender d l e, fold_left (leg_in_step sender d) l (Err e) = Err e.
+Proof. induction l; intros; simpl; auto. Qed.
+Lemma fold_leg_out_err : forall sender d l e, fold_left (leg_out_step sender d) l (Err e) = Err e.
+Proof. induction l; intros; simpl; auto. Qed.
+
+Lemma split_in_loop_fold : forall legs s sender dIn total acc,
+  match split_in_loop P s sender legs dIn total with
+  | Err e => fold_left (leg_in_step sender dIn) legs (Ok (s, acc)) = Err e
+  | Ok (s', tot) => exists outs, fold_left (leg_in_step sender dIn) legs (Ok (s, acc)) = Ok (s', acc ++ outs)
+                                 /\ tot = total + zsum outs
+  end.
+Proof.
+  induction legs as [|[r amt] rest IH]; intros; simpl.
+  - exists []. rewrite app_nil_r. split; [reflexivity|simpl; lia].
+  - destruct (amt <? 0); [apply fold_leg_in_err|].
+    destruct (route_exact_in P s sender r dIn amt 0) as [[s1 out]|e]; [|apply fold_leg_in_err].
+    specialize (IH s1 sender dIn (total + out) (acc ++ [out])).
+    destruct (split_in_loop P s1 sender rest dIn (total + out)) as [[s' tot]|e]; [|exact IH].
+    destruct IH as (outs & F & T). exists (out :: outs). rewrite F, <- app_assoc. split; [reflexivity|simpl; lia].
+Qed.
+
+Lemma split_out_loop_fold : forall legs s sender dOut total acc,
+  match split_out_loop P s sender legs dOut total with
+  | Err e => fold_left (leg_out_step sender dOut) legs (Ok (s, acc)) = Err e
+  | Ok (s', tot) => exists ins, fold_left (leg_out_step sender dOut) legs (Ok (s, acc)) = Ok (s', acc ++ ins)
+                                /\ tot = total + zsum ins
+  end.
+Proof.
+  induction legs as [|[r amt] rest IH]; intros; simpl.
+  - exists []. rewrite app_nil_r. split; [reflexivity|simpl; lia].
+  - destruct (amt <? 0); [apply fold_leg_out_err|].
+    destruct (route_exact_out P s sender r int_max_value dOut amt) as [[s1 tin]|e]; [|apply fold_leg_out_err].
+    specialize (IH s1 sender dOut (total + tin) (acc ++ [tin])).
+    destruct (split_out_loop P s1 sender rest dOut (total + tin)) as [[s' tot]|e]; [|exact IH].
+    destruct IH as (ins & F & T). exists (tin :: ins). rewrite F, <- app_assoc. split; [reflexivity|simpl; lia].
+Qed.
+
+(* a split exact-in swap succeeds with [total] iff the message is well-formed, its legs - executed one after the
+   other as routed swaps - all succeed, [total] is the sum of their outputs, and that sum is positive and at least
+   the caller's minimum *)
+Theorem split_in_eq_sum : forall s sender legs dIn minOut s' total,
+  split_exact_in P s sender legs dIn minOut = Ok (s', total) <->
+  validate_split last_denom (map fst legs) = true /\
+  exists outs, fold_left (leg_in_step sender dIn) legs (Ok (s, [])) = Ok (s', outs) /\
+               total = zsum outs /\ 0 < total /\ minOut <= total.
+Proof.
+  intros. unfold split_exact_in.
+  pose proof (split_in_loop_fold legs s sender dIn 0 []) as F.
+  destruct (validate_split last_denom (map fst legs)); simpl.
+  2:{ split; [discriminate|intros [? _]; discriminate]. }
+  destruct (split_in_loop P s sender legs dIn 0) as [[s2 tot]|e].
+  - destruct F as (outs & F & T). simpl in F. 
+    destruct (tot <=? 0) eqn:E1; [|destruct (tot <? minOut) eqn:E2].
+    + split; [discriminate|]. intros (_ & outs' & F' & T' & Pz & _). rewrite F in F'. inversion F'; subst.
+      apply Z.leb_le in E1. lia.
+    + split; [discriminate|]. intros (_ & outs' & F' & T' & _ & Mn). rewrite F in F'. inversion F'; subst.
+      apply Z.ltb_lt in E2. lia.
+    + apply Z.leb_gt in E1. apply Z.ltb_ge in E2. split.
+      * intro H; inversion H; subst. split; [reflexivity|]. exists outs. repeat split; auto; lia.
+      * intros (_ & outs' & F' & T' & _ & _). rewrite F in F'. inversion F'; subst. repeat f_equal; try lia.
+  - split; [discriminate|]. intros (_ & outs' & F' & _). rewrite F in F'. discriminate.
+Qed.
+
+Theorem split_out_eq_sum : forall s sender legs dOut maxIn s' total,
+  split_exact_out P s sender legs dOut maxIn = Ok (s', total) <->
+  validate_split first_denom (map fst legs) = true /\
+  exists ins, fold_left (leg_out_step sender dOut) legs (Ok (s, [])) = Ok (s', ins) /\
+              total = zsum ins /\ 0 < total /\ total <= maxIn.
+Proof.
+  intros. unfold split_exact_out.
+  pose proof (split_out_loop_fold legs s sender dOut 0 []) as F.
+  destruct (validate_split first_denom (map fst legs)); simpl.
+  2:{ split; [discriminate|intros [? _]; discriminate]. }
+  destruct (split_out_loop P s sender legs dOut 0) as [[s2 tot]|e].
+  - destruct F as (ins & F & T). simpl in F.
+    destruct (tot <=? 0) eqn:E1; [|destruct (maxIn <? tot) eqn:E2].
+    + split; [discriminate|]. intros (_ & ins' & F' & T' & Pz & _). rewrite F in F'. inversion F'; subst.
+      apply Z.leb_le in E1. lia.
+    + split; [discriminate|]. intros (_ & ins' & F' & T' & _ & Mx). rewrite F in F'. inversion F'; subst.
+      apply Z.ltb_lt in E2. lia.
+    + apply Z.leb_gt in E1. apply Z.ltb_ge in E2. split.
+      * intro H; inversion H; subst. split; [reflexivity|]. exists ins. repeat split; auto; lia.
+      * intros (_ & ins' & F' & T' & _ & _). rewrite F in F'. inversion F'; subst. repeat f_equal; try lia.
+  - split; [discriminate|]. intros (_ & ins' & F' & _). rewrite F in F'. discriminate.
+Qed.
+
+(* a leg of a split exact-in swap (minimum 0) is the same as a routed swap with minimum 1: outputs are positive *)
+Lemma pm_in_min01 : forall s sender pid dIn amt dOut,
+  pm_swap_exact_in P s sender pid dIn amt dOut 0 = pm_swap_exact_in P s sender pid dIn amt dOut 1.
+Proof.
+  intros. unfold pm_swap_exact_in.
+  destruct (get_pool P (pools s) pid) as [p|]; [|reflexivity].
+  destruct (negb (is_active P p)); [reflexivity|].
+  destruct (charge_taker_fee P s sender dIn amt dOut true) as [[s1 [after fee]]|]; [|reflexivity].
+  unfold module_swap_exact_in. destruct (dIn =? dOut); [reflexivity|].
+  destruct (swap_in P p dIn after dOut (spread_of P p)) as [[p' [tin tout]]|]; [|reflexivity].
+  destruct (tout <=? 0) eqn:E; [reflexivity|]. apply Z.leb_gt in E.
+  assert (A : tout <? 0 = false) by (apply Z.ltb_ge; lia).
+  assert (B : tout <? 1 = false) by (apply Z.ltb_ge; lia).
+  rewrite A, B. reflexivity.
+Qed.
+
+Lemma route_in_min01 : forall route s sender dIn amt,
+  route_exact_in P s sender route dIn amt 0 = route_exact_in P s sender route dIn amt 1.
+Proof.
+  unfold route_exact_in. induction route as [|[pid dOut] rest IH]; intros; [reflexivity|].
+  simpl. destruct rest as [|h2 rest'].
+  - rewrite pm_in_min01. reflexivity.
+  - destruct (pm_swap_exact_in P s sender pid dIn amt dOut 1) as [[s1 [o f]]|]; [|reflexivity]. apply IH.
+Qed.
+
+(* ------------------------------------------------------------------ messages *)
+Lemma step_err_unchanged : forall s m s' e, step P s m = (s', Err e) -> s' = s.
+Proof. unfold step; intros. destruct (handle P s m) as [[s1 r]|e1]; inversion H; reflexivity. Qed.
+
+Lemma step_ok : forall s m s' r, step P s m = (s', Ok r) -> handle P s m = Ok (s', r).
+Proof. unfold step; intros. destruct (handle P s m) as [[s1 r1]|e1]; inversion H; reflexivity. Qed.
+
+(* multi-hop exact-in message = the single-hop message for the first hop (minimum 1), then the message for the
+   rest of the route with the first hop's output as its input *)
+Lemma handle_swap_in : forall s sender route dIn amt minOut,
+  handle P s (MSwapIn sender route dIn amt minOut) =
+  if negb (match route with [] => true | _ => false end) && (0 <? amt) && (0 <? minOut)
+  then route_exact_in P s sender route dIn amt minOut else Err EInvalid.
+Proof.
+  intros. unfold handle, validate_basic.
+  destruct (negb (match route with [] => true | _ => false end) && (0 <? amt) && (0 <? minOut)); reflexivity.
+Qed.
+
+Theorem swap_in_msg_compose : forall s sender h rest dIn amt minOut, rest <> [] -> 0 < minOut ->
+  handle P s (MSwapIn sender (h :: rest) dIn amt minOut) =
+  match handle P s (MSwapIn sender [h] dIn amt 1) with
+  | Err e => Err e
+  | Ok (s1, out) => handle P s1 (MSwapIn sender rest (snd h) out minOut)
+  end.
+Proof.
+  intros. rewrite !handle_swap_in.
+  assert (M : 0 <? minOut = true) by (apply Z.ltb_lt; assumption). rewrite M.
+  change (0 <? 1) with true. cbn [negb andb].
+  destruct (0 <? amt) eqn:A; cbn [andb]; [|reflexivity].
+  rewrite route_in_cons by assumption.
+  destruct (route_exact_in P s sender [h] dIn amt 1) as [[s1 out]|] eqn:E; [|reflexivity].
+  apply route_in_min_out in E. destruct E as [_ Pz].
+  rewrite handle_swap_in, M.
+  assert (O : 0 <? out = true) by (apply Z.ltb_lt; assumption). rewrite O.
+  destruct rest; [congruence|]. reflexivity.
+Qed.
+
+(* ------------------------------------------------------------------ exact-out: one hop *)
+Lemma route_out_loop_inv : forall first s sender pid dIn rest maxIn ins_rest dOutF amtF s' t,
+  route_out_loop P first s sender ((pid, dIn) :: rest) (maxIn :: ins_rest) dOutF amtF = Ok (s', t) ->
+  exists p s1 cur s2 fee,
+    get_pool P (pools s) pid = Some p /\ is_active P p = true /\
+    module_swap_exact_out P s sender pid p dIn maxIn (fst (next_out rest ins_rest dOutF amtF))
+                          (snd (next_out rest ins_rest dOutF amtF)) (spread_of P p) = Ok (s1, cur) /\
+    charge_taker_fee P s1 sender dIn cur (fst (next_out rest ins_rest dOutF amtF)) false = Ok (s2, (t, fee)) /\
+    (first = true -> t <= maxIn) /\
+    match rest with
+    | [] => s' = s2
+    | _ => exists t', route_out_loop P false s2 sender rest ins_rest dOutF amtF = Ok (s', t')
+    end.
+Proof.
+  intros until t. intro H. cbn [route_out_loop] in H.
+  destruct (next_out rest ins_rest dOutF amtF) as [dOut amtOut] eqn:N. simpl fst; simpl snd.
+  destruct (get_pool P (pools s) pid) as [p|]; [|discriminate].
+  destruct (is_active P p) eqn:A; simpl in H; [|discriminate].
+  destruct (module_swap_exact_out P s sender pid p dIn maxIn dOut amtOut (spread_of P p)) as [[s1 cur]|] eqn:M; [|discriminate].
+  destruct (charge_taker_fee P s1 sender dIn cur dOut false) as [[s2 [after fee]]|] eqn:C; [|discriminate].
+  destruct (first && (maxIn <? after)) eqn:F; [discriminate|].
+  assert (FL : first = true -> after <= maxIn).
+  { intro; subst first. simpl in F. apply Z.ltb_ge in F. assumption. }
+  destruct rest as [|h2 rest'].
+  - inversion H; subst. exists p, s1, cur, s', fee. repeat split; auto.
+  - destruct (route_out_loop P false s2 sender (h2 :: rest') ins_rest dOutF amtF) as [[s3 t']|] eqn:R; [|discriminate].
+    inversion H; subst. exists p, s1, cur, s2, fee. repeat split; auto. exists t'. exact R.
+Qed.
+
+(* ------------------------------------------------------------------ limits: exact-out (after the repair of C05-F1) *)
+Lemma expected_ins_length : forall route s dOutF amtF s1 ins,
+  expected_ins P s route dOutF amtF = (s1, Ok ins) -> length ins = length route.
+Proof.
+  induction route as [|[pid dIn] rest IH]; intros; cbn [expected_ins] in H.
+  - inversion H; reflexivity.
+  - destruct (expected_ins P s rest dOutF amtF) as [s0 [ins_rest|e]] eqn:E; [|discriminate].
+    destruct (next_out rest ins_rest dOutF amtF) as [dOut amtOut].
+    destruct (get_pool P (pools s0) pid) as [p|]; [|discriminate].
+    destruct (calc_in P p dOut amtOut dIn (spread_of P p)) as [p' [tin|e]]; [|discriminate].
+    destruct (calc_fee_out tin (taker_fee s0 dIn dOut)) as [[after fee]|]; [|discriminate].
+    inversion H; subst. cbn [length]. f_equal. eapply IH; eauto.
+Qed.
+
+Theorem route_out_max_in : forall route s sender maxIn dOutF amtF s' t,
+  route_exact_out P s sender route maxIn dOutF amtF = Ok (s', t) -> t <= maxIn.
+Proof.
+  intros. unfold route_exact_out in H. destruct route as [|[pid dIn] rest]; [discriminate|].
+  destruct (expected_ins P s ((pid, dIn) :: rest) dOutF amtF) as [s1 [ins|e]] eqn:E; [|discriminate].
+  apply expected_ins_length in E.
+  destruct ins as [|a0 t0]; [cbn [length] in E; discriminate|].
+  apply route_out_loop_inv in H. destruct H as (p & s2 & cur & s3 & fee & _ & _ & _ & _ & F & _). auto.
+Qed.
+
+(* every message: success respects the caller's limit; failure leaves the state unchanged *)
+Theorem step_limits : forall s m s' r, step P s m = (s', r) ->
+  match r with
+  | Ok v => match m with
+            | MSwapIn _ _ _ _ minOut => minOut <= v
+            | MSwapOut _ _ maxIn _ _ => v <= maxIn
+            | MSplitIn _ _ _ minOut => minOut <= v
+            | MSplitOut _ _ _ maxIn => v <= maxIn
+            end
+  | Err _ => s' = s
+  end.
+Proof.
+  intros. destruct r as [v|e]; [|eapply step_err_unchanged; eauto].
+  apply step_ok in H. unfold handle in H. destruct (negb (validate_basic m)); [discriminate|].
+  destruct m.
+  - apply route_in_min_out in H. tauto.
+  - eapply route_out_max_in; eauto.
+  - apply split_in_eq_sum in H. destruct H as (_ & outs & _ & _ & _ & ?). assumption.
+  - apply split_out_eq_sum in H. destruct H as (_ & ins & _ & _ & _ & ?). assumption.
+Qed.
+
+(* ================================================================== with the two pool laws *)
+Hypothesis L : PoolLaws P.
+
+(* ------------------------------------------------------------------ estimates leave the state unchanged *)
+(* the value an estimate returns, without the state threading *)
+Fixpoint est_in_val (s : state P) (route : list (Z * Z)) (dIn amt : Z) : result Z :=
+  match route with
+  | [] => Ok amt
+  | (pid, dOut) :: rest =>
+    match get_pool P (pools s) pid with
+    | None => Err ENoPool
+    | Some p =>
+      match snd (calc_out P p dIn (fst (calc_fee_in amt (taker_fee s dIn dOut))) dOut (spread_of P p)) with
+      | Err e => Err e
+      | Ok out => if out <=? 0 then Err EPool else est_in_val s rest dOut out
+      end
+    end
+  end.
+
+Lemma est_in_loop_val : forall route s dIn amt, est_in_loop P s route dIn amt = (s, est_in_val s route dIn amt).
+Proof.
+  induction route as [|[pid dOut] rest IH]; intros; cbn [est_in_loop est_in_val]; [reflexivity|].
+  destruct (get_pool P (pools s) pid) as [p|] eqn:G; [|reflexivity].
+  pose proof (law_calc_out_pure P L p dIn (fst (calc_fee_in amt (taker_fee s dIn dOut))) dOut (spread_of P p)) as Hp.
+  destruct (calc_out P p dIn (fst (calc_fee_in amt (taker_fee s dIn dOut))) dOut (spread_of P p)) as [p' r] eqn:E.
+  cbn [fst] in Hp; subst p'. cbn [snd]. rewrite set_pool_same by assumption.
+  destruct r as [out|e]; [|reflexivity].
+  destruct (out <=? 0); [reflexivity|]. apply IH.
+Qed.
+
+Theorem estimate_in_pure : forall route s dIn amt, fst (estimate_in P s route dIn amt) = s.
+Proof.
+  intros. unfold estimate_in. destruct route; [reflexivity|]. rewrite est_in_loop_val. reflexivity.
+Qed.
+
+(* the estimate only reads the pools on the route and the taker-fee table *)
+Lemma est_in_val_agree : forall route s s2 dIn amt,
+  (forall q, In q (map fst route) -> get_pool P (pools s2) q = get_pool P (pools s) q) ->
+  taker_fee s2 = taker_fee s ->
+  est_in_val s2 route dIn amt = est_in_val s route dIn amt.
+Proof.
+  induction route as [|[pid dOut] rest IH]; intros; cbn [est_in_val]; [reflexivity|].
+  rewrite H by (cbn [map fst In]; auto). rewrite H0.
+  destruct (get_pool P (pools s) pid) as [p|]; [|reflexivity].
+  destruct (snd (calc_out P p dIn (fst (calc_fee_in amt (taker_fee s dIn dOut))) dOut (spread_of P p))) as [out|]; [|reflexivity].
+  destruct (out <=? 0); [reflexivity|].
+  apply IH; [|assumption]. intros; apply H; cbn [map fst In]; auto.
+Qed.
+
+(* ------------------------------------------------------------------ estimate = execution, exact-in *)
+Lemma est_in_eq_exec : forall route s sender dIn amt minOut s' out,
+  NoDup (map fst route) -> fee_neutral s sender ->
+  route_exact_in P s sender route dIn amt minOut = Ok (s', out) ->
+  est_in_val s route dIn amt = Ok out.
+Proof.
+  unfold route_exact_in.
+  induction route as [|[pid dOut] rest IH]; intros s sender dIn amt minOut s' out ND W H; [discriminate|].
+  cbn [route_in_loop] in H.
+  destruct (pm_swap_exact_in P s sender pid dIn amt dOut (match rest with [] => minOut | _ :: _ => 1 end)) as [[s1 [o f]]|] eqn:E; [|discriminate].
+  pose proof (pm_in_frame _ _ _ _ _ _ _ _ _ _ E) as (F1 & F2 & F3).
+  apply pm_in_inv in E. destruct E as (p & s0 & after & G & A & C & M).
+  apply (charge_after_in _ _ _ _ _ _ _ _ W) in C. subst after.
+  apply module_in_inv in M. destruct M as (p' & tin & SW & Pos & _ & _ & _).
+  apply (law_calc_out_swap P L) in SW.
+  cbn [est_in_val]. rewrite G, SW.
+  destruct (o <=? 0) eqn:E0; [apply Z.leb_le in E0; lia|].
+  inversion ND; subst.
+  destruct rest as [|h2 rest'].
+  - inversion H; subst. reflexivity.
+  - rewrite <- (est_in_val_agree (h2 :: rest') s s1) by (auto; intros q Hq; apply F3; intro; subst; contradiction).
+    eapply IH; eauto. unfold fee_neutral in *. rewrite F1, F2; assumption.
+Qed.
+
+Theorem estimate_in_eq_execute : forall route s sender dIn amt minOut s' out,
+  NoDup (map fst route) -> fee_neutral s sender ->
+  route_exact_in P s sender route dIn amt minOut = Ok (s', out) ->
+  estimate_in P s route dIn amt = (s, Ok out).
+Proof.
+  intros. unfold estimate_in. destruct route as [|h r]; [discriminate|].
+  rewrite est_in_loop_val. f_equal. eapply est_in_eq_exec; eauto.
+Qed.
+
+(* ------------------------------------------------------------------ exact-out: the expected inputs *)
+Fixpoint exp_ins_val (s : state P) (route : list (Z * Z)) (dOutF amtF : Z) : result (list Z) :=
+  match route with
+  | [] => Ok []
+  | (pid, dIn) :: rest =>
+    match exp_ins_val s rest dOutF amtF with
+    | Err e => Err e
+    | Ok ins_rest =>
+      let '(dOut, amtOut) := next_out rest ins_rest dOutF amtF in
+      match get_pool P (pools s) pid with
+      | None => Err ENoPool
+      | Some p =>
+        match snd (calc_in P p dOut amtOut dIn (spread_of P p)) with
+        | Err e => Err e
+        | Ok tin =>
+          match calc_fee_out tin (taker_fee s dIn dOut) with
+          | Err e => Err e
+          | Ok (after, _) => Ok (after :: ins_rest)
+          end
+        end
+      end
+    end
+  end.
+
+Lemma expected_ins_val : forall route s dOutF amtF,
+  expected_ins P s route dOutF amtF = (s, exp_ins_val s route dOutF amtF).
+Proof.
+  induction route as [|[pid dIn] rest IH]; intros; cbn [expected_ins exp_ins_val]; [reflexivity|].
+  rewrite IH. destruct (exp_ins_val s rest dOutF amtF) as [ins_rest|e]; [|reflexivity].
+  destruct (next_out rest ins_rest dOutF amtF) as [dOut amtOut].
+  destruct (get_pool P (pools s) pid) as [p|] eqn:G; [|reflexivity].
+  pose proof (law_calc_in_pure P L p dOut amtOut dIn (spread_of P p)) as Hp.
+  destruct (calc_in P p dOut amtOut dIn (spread_of P p)) as [p' r] eqn:E.
+  cbn [fst] in Hp; subst p'. cbn [snd]. rewrite set_pool_same by assumption.
+  destruct r as [tin|e]; [|reflexivity].
+  destruct (calc_fee_out tin (taker_fee s dIn dOut)) as [[after fee]|]; reflexivity.
+Qed.
+
+Theorem estimate_out_pure : forall route s dOutF amtF, fst (estimate_out P s route dOutF amtF) = s.
+Proof.
+  intros. unfold estimate_out. destruct route; [reflexivity|]. rewrite expected_ins_val.
+  destruct (exp_ins_val s (p :: route) dOutF amtF); reflexivity.
+Qed.
+
+Lemma exp_ins_length : forall route s dOutF amtF ins,
+  exp_ins_val s route dOutF amtF = Ok ins -> length ins = length route.
+Proof.
+  induction route as [|[pid dIn] rest IH]; intros; cbn [exp_ins_val] in H.
+  - inversion H; reflexivity.
+  - destruct (exp_ins_val s rest dOutF amtF) as [ins_rest|] eqn:E; [|discriminate].
+    destruct (next_out rest ins_rest dOutF amtF) as [dOut amtOut].
+    destruct (get_pool P (pools s) pid) as [p|]; [|discriminate].
+    destruct (snd (calc_in P p dOut amtOut dIn (spread_of P p))) as [tin|]; [|discriminate].
+    destruct (calc_fee_out tin (taker_fee s dIn dOut)) as [[after fee]|]; [|discriminate].
+    inversion H; subst. cbn [length]. f_equal. eapply IH; eauto.
+Qed.
+
+(* ------------------------------------------------------------------ estimate = execution, exact-out.
+   No "each pool at most once" hypothesis is needed here: the amount charged is fixed by the FIRST executed hop,
+   which runs on the very state the estimate was made on. *)
+Theorem estimate_out_eq_execute : forall route s sender maxIn dOutF amtF s' t,
+  fee_neutral s sender ->
+  route_exact_out P s sender route maxIn dOutF amtF = Ok (s', t) ->
+  estimate_out P s route dOutF amtF = (s, Ok t).
+Proof.
+  intros until t. intros W H. unfold route_exact_out in H. unfold estimate_out.
+  destruct route as [|[pid dIn] rest]; [discriminate|].
+  rewrite expected_ins_val in *.
+  destruct (exp_ins_val s ((pid, dIn) :: rest) dOutF amtF) as [ins|] eqn:E; [|discriminate].
+  destruct ins as [|a0 t0]; [apply exp_ins_length in E; simpl in E; discriminate|].
+  cbn [hd]. f_equal. f_equal.
+  (* what the estimate computed for the first hop *)
+  cbn [exp_ins_val] in E.
+  destruct (exp_ins_val s rest dOutF amtF) as [ins_rest|] eqn:ER; [|discriminate].
+  destruct (next_out rest ins_rest dOutF amtF) as [dOut amtOut] eqn:N.
+  destruct (get_pool P (pools s) pid) as [p|] eqn:G; [|discriminate].
+  destruct (snd (calc_in P p dOut amtOut dIn (spread_of P p))) as [tin|] eqn:CI; [|discriminate].
+  destruct (calc_fee_out tin (taker_fee s dIn dOut)) as [[after fee0]|] eqn:CF; [|discriminate].
+  inversion E; subst a0 t0; clear E.
+  (* what the execution did on the first hop *)
+  apply route_out_loop_inv in H. rewrite N in H. cbn [fst snd] in H.
+  destruct H as (p2 & s1 & cur & s2 & fee & G2 & _ & M & C & _ & _).
+  rewrite G in G2; inversion G2; subst p2.
+  apply module_out_inv in M. destruct M as (p' & tout & SW & _ & _ & _ & St).
+  apply (law_calc_in_swap P L) in SW. rewrite CI in SW. inversion SW; subst cur.
+  apply settle_inv in St. destruct St as (_ & TF & WL & _).
+  assert (FN : fee_neutral s1 sender) by (unfold fee_neutral in *; rewrite TF, WL; assumption).
+  apply (charge_after_out _ _ _ _ _ _ _ _ FN) in C. destruct C as (fee' & C).
+  rewrite TF, CF in C. inversion C. reflexivity.
+Qed.
+
+(* RouteExactAmountOut = the backward estimate, then the left fold of [out_hop] over the hops *)
+Theorem route_out_eq_fold : forall route s sender maxIn dOutF amtF, route <> [] ->
+  match exp_ins_val s route dOutF amtF with
+  | Err e => route_exact_out P s sender route maxIn dOutF amtF = Err e
+  | Ok ins =>
+    match fold_left (out_step sender) (out_hops true route (maxIn :: tl ins) dOutF amtF) (Ok (s, [])) with
+    | Err e => route_exact_out P s sender route maxIn dOutF amtF = Err e
+    | Ok (s', ts) => route_exact_out P s sender route maxIn dOutF amtF = Ok (s', hd 0 ts)
+    end
+  end.
+Proof.
+  intros. unfold route_exact_out. destruct route as [|h rest]; [congruence|].
+  rewrite expected_ins_val.
+  destruct (exp_ins_val s (h :: rest) dOutF amtF) as [ins|e] eqn:E; [|reflexivity].
+  pose proof (exp_ins_length _ _ _ _ _ E) as Len.
+  destruct ins as [|a0 t0]; [simpl in Len; discriminate|]. simpl tl.
+  pose proof (route_out_loop_fold (h :: rest) true s sender (maxIn :: t0) dOutF amtF [] H) as F.
+  assert (Len2 : length (maxIn :: t0) = length (h :: rest)) by (simpl in *; lia).
+  specialize (F Len2).
+  destruct (route_out_loop P true s sender (h :: rest) (maxIn :: t0) dOutF amtF) as [[s' t]|e].
+  - destruct F as [ts F]. rewrite F. reflexivity.
+  - rewrite F. reflexivity.
 Qed.
 
 End WithPool.
